@@ -365,6 +365,10 @@ class Ctx:
                             if '"ev":"end"' in line[:40]:
                                 continue
                             m = re.match(r'\{"t":(\d+),', line)
+                            if m is None:
+                                if not line.strip():
+                                    continue
+                                raise Inconclusive("%s: torn trace line in %s: %r" % (run, tp, line[:120]))
                             t = int(m.group(1))
                             mx = max(mx, t)
                             mf.write('{"t":%d,' % (t + base) + line[m.end():])
